@@ -166,6 +166,7 @@ pub struct MutArc<T>(pub T, pub Ghost<int>);
 pub fn hold_<T>(_g: &T) {}
 // probe files only (rule R13): a wrapper with a destructor, so that the borrow it holds is live until the
 // end of its scope on EVERY exit path (as the real guard's is)
+pub fn drop_guard_<T>(_g: T) {}
 pub struct GuardScope_<T>(pub T);
 impl<T> Drop for GuardScope_<T> {
   fn drop(&mut self) opens_invariants none no_unwind {}
